@@ -107,7 +107,7 @@ Qed.
 Variable T0 : Z.       (* the strictly ranked ballots cast, in raw units *)
 Variable Em : Z.       (* the multipliers of the ballots with equal rankings, which meek-prf never reads *)
 Hypothesis Hmeth : cf_method cfg = MMeek.
-Notation MI := (MI A S ZL (T0 + Em)).
+Notation MI := (MI A S ZL cfg (T0 + Em)).
 
 Definition remaining_msg (m : string) : bool := prefix "Elect remaining" m || prefix "Defeat remaining" m.
 Definition claimed (t : tag) (m : string) : bool :=
@@ -127,7 +127,7 @@ Proof. intros E1 E2 [H1 H2]. split; rewrite ?E1, ?E2; assumption. Qed.
 Lemma cvp_same (s s' : est) : cands s' = cands s -> residual s' = residual s -> CVp s -> CVp s'.
 Proof. intros E1 E2 H. unfold CVp in *. rewrite E1, E2. exact H. Qed.
 Lemma wz_of_mi (s : est) : MI s -> WZ (cands s).
-Proof. intros M c Hc Hw. apply (mi_z0 _ _ _ _ _ M c Hc). unfold is_he, in_state. rewrite Hw. reflexivity. Qed.
+Proof. intros M c Hc Hw. apply (mi_z0 _ _ _ _ _ _ M c Hc). unfold is_he, in_state. rewrite Hw. reflexivity. Qed.
 
 Lemma elig_tot_w (l : list cand) : WZ l ->
   fold_right (fun x acc => R x + acc) 0 (map (@cvote A) (filter (fun c => negb (in_state A Withdrawn c)) l)) = tot l.
@@ -199,23 +199,23 @@ Qed.
 (* a distribution restores the balance *)
 Lemma mi_prf_distribute (s : est) : MI s -> PH s -> MI (prf_distribute A s) /\ PH (prf_distribute A s) /\ CVp (prf_distribute A s).
 Proof.
-  intros M [P1 P2]. destruct (prf_distribute_spec s (mi_nd _ _ _ _ _ M)) as (D1 & D2 & D3 & D4 & D5 & D6 & _).
+  intros M [P1 P2]. destruct (prf_distribute_spec s (mi_nd _ _ _ _ _ _ M)) as (D1 & D2 & D3 & D4 & D5 & D6 & _).
   assert (Hback: forall c', In c' (cands (prf_distribute A s)) -> is_he A c' = false ->
             exists c, In c (cands s) /\ is_he A c = false /\ cvote c' = cvote c /\ kf_truthy A c' = false).
   { intros c' Hc' Hh. destruct (relk_in A _ _ _ c' D2 Hc') as (c & Hc & Hr). destruct (rk_id A _ _ _ Hr) as (E1 & E2 & E3 & E4).
     assert (Hhc: is_he A c = false) by (unfold is_he, in_state in *; rewrite <- E2; exact Hh).
-    pose proof (mi_kf0 _ _ _ _ _ M c Hc Hhc) as Hk. exists c. split; [exact Hc|]. split; [exact Hhc|]. split.
+    pose proof (mi_kf0 _ _ _ _ _ _ M c Hc Hhc) as Hk. exists c. split; [exact Hc|]. split; [exact Hhc|]. split.
     - apply (proj2 Hr). unfold MeekRun.Pnh. rewrite Hhc, Hk. reflexivity.
     - unfold kf_truthy in *. rewrite E4. exact Hk. }
   split; [constructor|split; [split|]].
-  - rewrite (relk_ids A _ _ _ D2). exact (mi_nd _ _ _ _ _ M).
-  - intros c' Hc' Hh. destruct (Hback c' Hc' Hh) as (c & Hc & Hhc & Ev & _). rewrite Ev. exact (mi_z0 _ _ _ _ _ M c Hc Hhc).
+  - rewrite (relk_ids A _ _ _ D2). exact (mi_nd _ _ _ _ _ _ M).
+  - intros c' Hc' Hh. destruct (Hback c' Hc' Hh) as (c & Hc & Hhc & Ev & _). rewrite Ev. exact (mi_z0 _ _ _ _ _ _ M c Hc Hhc).
   - intros c' Hc' Hh. destruct (Hback c' Hc' Hh) as (c & _ & _ & _ & Hk). exact Hk.
-  - rewrite D3, D4. exact (mi_tm _ _ _ _ _ M).
-  - rewrite D6. exact (mi_hist _ _ _ _ _ M).
+  - rewrite D3, D4. exact (mi_tm _ _ _ _ _ _ M).
+  - rewrite D6. exact (mi_hist _ _ _ _ _ _ M).
   - rewrite D3. exact P1.
   - rewrite D6. exact P2.
-  - unfold CVp. rewrite D1, (nonhe_tot_zero A S ZL _ (mi_z0 _ _ _ _ _ M)). lia.
+  - unfold CVp. rewrite D1, (nonhe_tot_zero A S ZL _ (mi_z0 _ _ _ _ _ _ M)). lia.
 Qed.
 
 
@@ -226,10 +226,10 @@ Definition QW (s : est) : Prop := MI s /\ PH s.     (* between a zeroed tally an
 Lemma q_same (s s' : est) : cands s' = cands s -> ballots s' = ballots s -> eballots s' = eballots s -> actions s' = actions s ->
   residual s' = residual s -> Q s -> Q s'.
 Proof.
-  intros E1 E2 E3 E4 E5 (M & P & V). split; [exact (mi_same A S ZL _ s s' E1 E2 E3 E4 M)|split; [exact (ph_same s s' E2 E4 P)|exact (cvp_same s s' E1 E5 V)]].
+  intros E1 E2 E3 E4 E5 (M & P & V). split; [exact (mi_same A S ZL cfg _ s s' E1 E2 E3 E4 M)|split; [exact (ph_same s s' E2 E4 P)|exact (cvp_same s s' E1 E5 V)]].
 Qed.
 Lemma qw_same (s s' : est) : cands s' = cands s -> ballots s' = ballots s -> eballots s' = eballots s -> actions s' = actions s -> QW s -> QW s'.
-Proof. intros E1 E2 E3 E4 (M & P). split; [exact (mi_same A S ZL _ s s' E1 E2 E3 E4 M)|exact (ph_same s s' E2 E4 P)]. Qed.
+Proof. intros E1 E2 E3 E4 (M & P). split; [exact (mi_same A S ZL cfg _ s s' E1 E2 E3 E4 M)|exact (ph_same s s' E2 E4 P)]. Qed.
 Lemma q_qw (s : est) : Q s -> QW s. Proof. intros (M & P & _). split; assumption. Qed.
 
 Lemma q_log t m (s : est) : t <> TIterate -> Q s -> Q (log_action A cfg t m s).
@@ -307,7 +307,7 @@ Qed.
 
 (* ---- the first operation ---- *)
 Variable ids : list Z.
-Notation BI := (BI A S ZL (T0 + Em) ids).
+Notation BI := (BI A S ZL cfg (T0 + Em) ids).
 
 Definition prf_begin (s : est) : est :=
   match omega A cfg with
@@ -375,11 +375,11 @@ Lemma qw_begin (s : est) : PreP s -> QW (prf_begin s).
 Proof.
   intros (B & P & Ht & Hr & Hb). unfold prf_begin.
   destruct (omega A cfg) as [o|e]; [|split; [apply mi_set_crash; exact (proj1 B)|revert P; apply ph_same; reflexivity]]. cbv zeta.
-  destruct (divv A _ _) as [q|e]; [|split; [apply (mi_same A S ZL _ (init_kfs A s)); [reflexivity|reflexivity|reflexivity|reflexivity|]; exact (proj1 (bi_init_kfs A S ZL _ ids s B))|revert P; apply ph_same; reflexivity]].
+  destruct (divv A _ _) as [q|e]; [|split; [apply (mi_same A S ZL cfg _ (init_kfs A s)); [reflexivity|reflexivity|reflexivity|reflexivity|]; exact (proj1 (bi_init_kfs A S ZL cfg _ ids s B))|revert P; apply ph_same; reflexivity]].
   set (s2 := set_quota (set_votes (init_kfs A s) _) _).
-  assert (B2: BI s2) by (apply (bi_same A S ZL _ ids (init_kfs A s)); [reflexivity|reflexivity|reflexivity|reflexivity|]; apply bi_init_kfs; exact B).
+  assert (B2: BI s2) by (apply (bi_same A S ZL cfg _ ids (init_kfs A s)); [reflexivity|reflexivity|reflexivity|reflexivity|]; apply bi_init_kfs; exact B).
   destruct (first_prefs_fold (ballots s2) s2) as (B3 & T3 & R3 & Bl3 & A3).
-  { cbn [cands s2 set_quota set_votes]. rewrite cids_init_kfs. exact (mi_nd _ _ _ _ _ (proj1 B)). }
+  { cbn [cands s2 set_quota set_votes]. rewrite cids_init_kfs. exact (mi_nd _ _ _ _ _ _ (proj1 B)). }
   { intros b Hb0. destruct (Hb b Hb0) as (c & E1 & E2 & E3). exists c. split; [exact E1|split; [exact E2|]]. cbn [cands s2 set_quota set_votes]. rewrite cids_init_kfs. exact E3. }
   { exact B2. }
   cbv zeta in *. set (s3 := fold_left _ (ballots s2) s2) in *.
